@@ -350,6 +350,8 @@ PROPS["C15"] = {
           "V=2, FMT=1, PT=206, length 2, both SSRCs", bound="one PLI", module=RM),
         K("marshal_rtcp_packets: RR + PLI compound layout", "c15_marshal_rtcp_rr_then_pli_layout", "quick", "bounded", ["marshal_rtcp_packets", "write_rtcp_packet", "build_receiver_report_body"],
           "count field, packet types, length words, second sub-packet starts right after the first", bound="RR with one block followed by a PLI", module=RM, timeout=600),
+        K("compound round trip RR + PLI through the real walker", "c15_rtcp_compound_roundtrip_rr_pli", "quick", "bounded", ["marshal_rtcp_packets", "parse_rtcp_packets", "parse_receiver_report", "parse_rtcp_psfb"],
+          "parse_rtcp_packets(marshal_rtcp_packets([RR, PLI])) == [RR, PLI] for every field value", bound="RR with one block followed by a PLI; the framing octets marshal emitted are asserted, then re-written as literals", module=RM, timeout=900),
         K("canary: report block inverse without clamping", "canary_report_block_unclamped", "quick", "canary", ["build_report_block"], "false claim, must FAIL", expect="fail", module=RM),
     ],
 }
